@@ -13,7 +13,7 @@ fn body(len: usize) -> Vec<u8> {
 pub fn cell(spec: &Value) -> Value {
     let cfg = SrvCfg::from_json(&spec["srv"]);
     let mut c = Counters::default();
-    let srv = match server_for(&cfg) {
+    let srv = match if cfg.single { server_fresh(&cfg) } else { server_for(&cfg) } {
         Ok(s) => s,
         Err(e) => return json!({"machinery_error": format!("server start: {e}")}),
     };
